@@ -184,7 +184,12 @@ func freeTCPPort() int {
 }
 
 func newEnv(T *tracer, rng *rand.Rand, pool []*meta, nports int, useRPC bool) *env {
-	dir, err := os.MkdirTemp("/var/tmp", "c14-")
+	// inside the working directory (the check's scratch under /var/tmp, removed by the check): a killed child leaves nothing behind
+	wd, err := os.Getwd()
+	if err != nil || strings.HasPrefix(wd, "/tmp") {
+		wd = "/var/tmp"
+	}
+	dir, err := os.MkdirTemp(wd, "c14-")
 	if err != nil {
 		panic(err)
 	}
